@@ -15,7 +15,9 @@ class ProcessingItemTrackingMixin:
     like detection items and conditions.
     """
 
-    applied_processing_items: set[str] = field(init=False, compare=False, default_factory=set)
+    applied_processing_items: set[str] = field(
+        init=False, compare=False, repr=False, default_factory=set
+    )
 
     def add_applied_processing_item(self, processing_item: "ProcessingItemBase" | None) -> None:
         """Add identifier of processing item to set of applied processing items."""
